@@ -6,6 +6,7 @@ pub mod mon_game;
 pub mod mon_movegen;
 pub mod mon_san;
 pub mod mon_tables;
+pub mod mon_threads;
 pub mod mon_valid;
 pub mod mon_walk;
 pub mod refchess;
